@@ -17,7 +17,14 @@
 /* collision resolvers that change the particle number from inside a step (the callback runs mid-step: MERCURIUS mode 1,
    TRACE mode 1/3): merge, then add a light fragment far away from everything (hash 900000+k) */
 static int n_frag = 0;
+static int frag_hit[8] = {0};   /* fragment k took part in a later collision that was resolved (it may have been merged away) */
+static void note_frag_hit(struct reb_simulation* const r, struct reb_collision c){
+    uint32_t h1 = r->particles[c.p1].hash, h2 = r->particles[c.p2].hash;
+    if (h1>=900000 && h1<900008) frag_hit[h1-900000] = 1;
+    if (h2>=900000 && h2<900008) frag_hit[h2-900000] = 1;
+}
 static int resolve_merge_addfrag(struct reb_simulation* const r, struct reb_collision c){
+    note_frag_hit(r, c);
     int ret = reb_collision_resolve_merge(r, c);
     if (ret && n_frag < 6){
         struct reb_particle f = {0};
@@ -31,6 +38,7 @@ static int resolve_merge_addfrag(struct reb_simulation* const r, struct reb_coll
 /* add a fragment first (the array may move: the indices in c stay valid), then merge */
 static int resolve_addfrag_merge(struct reb_simulation* const r, struct reb_collision c){
     if (r->particles[c.p1].last_collision==r->t || r->particles[c.p2].last_collision==r->t) return 0;
+    note_frag_hit(r, c);
     if (n_frag < 6){
         struct reb_particle f = {0};
         f.m = 1e-9; f.r = 1e-6; f.x = -9.0 - 0.37*n_frag; f.y = 7.0 + 0.21*n_frag; f.z = -0.3; f.vx = -0.05; f.vy = -0.2;
@@ -61,7 +69,7 @@ int main(void){
             if (r) reb_simulation_free(r);
             r = reb_simulation_create();
             r->save_messages = 1;   /* keep stderr for the sanitizer */
-            n_frag = 0;
+            n_frag = 0; for (int k=0;k<8;k++) frag_hit[k] = 0;
             if (box) reb_simulation_configure_box(r, 16., 1, 1, 1);
             if (bnd) r->boundary = REB_BOUNDARY_OPEN;
             if (tree==1) r->gravity = REB_GRAVITY_TREE;
@@ -95,8 +103,8 @@ int main(void){
             else if (!strcmp(name,"collision")) r->collision = (int)val;
             else if (!strcmp(name,"merge")) r->collision_resolve = reb_collision_resolve_merge;
             else if (!strcmp(name,"hardsphere")) r->collision_resolve = reb_collision_resolve_hardsphere;
-            else if (!strcmp(name,"merge_addfrag")){ r->collision_resolve = resolve_merge_addfrag; n_frag = 0; }
-            else if (!strcmp(name,"addfrag_merge")){ r->collision_resolve = resolve_addfrag_merge; n_frag = 0; }
+            else if (!strcmp(name,"merge_addfrag")){ r->collision_resolve = resolve_merge_addfrag; n_frag = 0; for (int k=0;k<8;k++) frag_hit[k] = 0; }
+            else if (!strcmp(name,"addfrag_merge")){ r->collision_resolve = resolve_addfrag_merge; n_frag = 0; for (int k=0;k<8;k++) frag_hit[k] = 0; }
             else if (!strcmp(name,"keepsorted")) r->collision_resolve_keep_sorted = (int)val;
             else if (!strcmp(name,"trackenergy")) r->track_energy_offset = (int)val;
             else if (!strcmp(name,"box")) reb_simulation_configure_box(r, val, 1, 1, 1);
@@ -221,7 +229,8 @@ int main(void){
             case REB_INTEGRATOR_BS: side = r->ri_bs.nbody_ode ? (long)(r->ri_bs.nbody_ode->length/6) : 0; break;
             default: break;
         }
-        printf("%d %u %d %u %d %ld %d\n", rc, r->N, r->N_active, r->N_allocated, bad, side, n_frag);
+        int nhit = 0; for (int k=0;k<8;k++) nhit += frag_hit[k];
+        printf("%d %u %d %u %d %ld %d %d\n", rc, r->N, r->N_active, r->N_allocated, bad, side, n_frag, nhit);
     }
     if (r) reb_simulation_free(r);
     return 0;
